@@ -30,4 +30,4 @@ def run(tier):
         "must-pass-through on the CFG of parse_raw_token (footer gate), provenance terms of the footer component in all 16 pre-authentication encodings "
         "(caller's expected footer on consumer sides, the builder's own footer on producer sides), identity of the Footer carrier and its base64 text, footer plumbing through the 32 wrappers and setters",
         ["MAC / signature strength: a different footer under the authenticator yields a different tag", "ring verify_slices_are_equal compares length and content", "base64 URL_SAFE_NO_PAD encoding is injective"],
-        extra, "that a different footer changes the tag / signature (cryptographic)")
+        extra, "that a different footer changes the tag / signature (cryptographic)", sem_rules={'C05.S2': 8, 'C05.S3': 8})
